@@ -221,31 +221,21 @@ theorem C07_withdraw_removes_only_own_released (h : HubSt) (inv : ClaimInv h) (u
 theorem C07_withdraw_step (h h' : HubSt) (e : HubEnv) (sender : Addr) (ms : List Msg) (inv : ClaimInv h)
     (hx : h.withdraw e sender = .ok (h', ms)) :
     ClaimInv h' ∧ ∀ u i, u ≠ sender → h'.waitB u i = h.waitB u i ∧ h'.waitS u i = h.waitS u i := by
-  unfold withdraw at hx
-  exc_norm at hx
-  split at hx
-  · cases hx
-  · split at hx
-    · cases hx
-    · rename_i h1 hp
-      split at hx
-      · cases hx
-      · split at hx
-        · cases hx
-        · injection hx with hx; injection hx with hx _; subst hx
-          have inv1 := C07_release_keeps_claims h h1 _ _ inv hp
-          have sp := processWithdrawRate_spec h h1 _ _ hp
-          have hrel : ∀ i ∈ (h1.finished sender).2, ∃ x, h1.hist i = some x ∧ x.released = true := by
-            intro i hi
-            simp only [finished, List.mem_filter] at hi
-            cases hxi : h1.hist i with
-            | none => simp [hxi] at hi
-            | some x => simp [hxi] at hi; exact ⟨x, rfl, hi.2⟩
-          have r := C07_withdraw_removes_only_own_released h1 inv1 sender _ hrel
-          refine ⟨?_, fun u i hne => ?_⟩
-          · apply ClaimInv.of_same _ r.1
-            exact ⟨rfl, rfl, rfl, rfl, rfl, rfl, rfl⟩
-          have := r.2.2 u i hne
-          exact ⟨by show _ = h.waitB u i; rw [← sp.1]; exact this.1, by show _ = h.waitS u i; rw [← sp.2.1]; exact this.2⟩
+  obtain ⟨_, h1, hp, _, _, hh, _⟩ := withdraw_spec h h' e sender ms hx
+  subst hh
+  have inv1 := C07_release_keeps_claims h h1 _ _ inv hp
+  have sp := processWithdrawRate_spec h h1 _ _ hp
+  have hrel : ∀ i ∈ (h1.finished sender).2, ∃ x, h1.hist i = some x ∧ x.released = true := by
+    intro i hi
+    simp only [finished, List.mem_filter] at hi
+    cases hxi : h1.hist i with
+    | none => simp [hxi] at hi
+    | some x => simp [hxi] at hi; exact ⟨x, rfl, hi.2⟩
+  have r := C07_withdraw_removes_only_own_released h1 inv1 sender _ hrel
+  refine ⟨?_, fun u i hne => ?_⟩
+  · apply ClaimInv.of_same _ r.1
+    exact ⟨rfl, rfl, rfl, rfl, rfl, rfl, rfl⟩
+  · have := r.2.2 u i hne
+    exact ⟨by show _ = h.waitB u i; rw [← sp.1]; exact this.1, by show _ = h.waitS u i; rw [← sp.2.1]; exact this.2⟩
 
 end Krp
